@@ -71,6 +71,8 @@ func (p *packageParse) unpack(data []byte) (msgs []*Message, err error) {
 			return count == 2
 		})
 		if index == len(data)-1 {
+			// data是连接读缓冲区的切片 下一次Read会覆盖 消息(body、原始报文、分包记录)需要自己的一份数据
+			data = bytes.Clone(data)
 			jtMsg := jt808.NewJTMessage()
 			if err := jtMsg.Decode(data); err != nil {
 				return nil, fmt.Errorf("%w [%x]", err, data)
@@ -102,8 +104,8 @@ func (p *packageParse) unpack(data []byte) (msgs []*Message, err error) {
 		msg := newTerminalMessage(jtMsg, originalData)
 		msgs = append(msgs, msg)
 		if end == len(p.historyData) {
-			// 没有遗留的数据
-			p.historyData = p.historyData[0:0]
+			// 没有遗留的数据 不能复用底层数组 已经返回的消息还在引用它
+			p.historyData = nil
 			return msgs, nil
 		}
 		p.historyData = p.historyData[end:]
